@@ -659,9 +659,9 @@ def gen_stream(ctx, tu, corpus):
     hs = [(v, ms) for v, ms in hms_cases(ctx, corpus) if in_domain(v, ms)]
     cap = ctx.n(15000)
     if len(xs) > cap:
-        xs = xs[:500] + ctx.rng.sample(xs[500:], cap - 500)
+        xs = xs[:500] + ctx.rng.sample(xs[500:], max(0, min(len(xs) - 500, cap - 500))) if len(xs) > 500 else xs[:max(cap, 0)]
     if len(hs) > cap:
-        hs = hs[:500] + ctx.rng.sample(hs[500:], cap - 500)
+        hs = hs[:500] + ctx.rng.sample(hs[500:], max(0, min(len(hs) - 500, cap - 500))) if len(hs) > 500 else hs[:max(cap, 0)]
     lines = ['gen xml_escape 15 s' + enc_str(s) for s in xs]
     lines += [f"gen format_hms 15 {common.pyval(v)} {'True' if ms else 'False'}" for v, ms in hs]
     outs = ctx.driver.batch(lines)
